@@ -3,6 +3,7 @@ package colsim
 import (
 	"encoding/binary"
 	"fmt"
+	"os"
 	"sort"
 
 	"github.com/kelindar/column"
@@ -20,6 +21,18 @@ func (st *concState) counts(onlyDone bool) map[uint32]int {
 			n++
 		}
 		out[b] = n
+	}
+	if !onlyDone {
+		// a commit that has taken the block's latch but has not reached the point at which the
+		// model applies it (it is inside commitMarkers: the fill list already changes) is under
+		// way: it overlaps whatever returns now, so it may or may not be part of it
+		for tid, blocks := range st.holding {
+			for b := range blocks {
+				if st.cur[tid][b] == nil {
+					out[b]++
+				}
+			}
+		}
 	}
 	return out
 }
@@ -180,6 +193,9 @@ func (w *World) checkSnapshot(i int, s *snapRec) *Violation {
 			}
 			if !ok {
 				why = d
+				if os.Getenv("COLSIM_DEBUG") != "" {
+					fmt.Printf("  snapshot #%d block %d vs prefix %d: %s\n", i, b, j, d)
+				}
 			}
 		}
 		legal := false
